@@ -285,6 +285,7 @@ def explore(make, traced_files, bound, check, max_exec=None, verify_every=50, op
     st = Stats()
     stack = [list(r) for r in roots] if roots is not None else [[]]
     st.children = []
+    st.children_cost = []       # preemptions used by each child prefix (0 = a free switch: it keeps the whole budget)
     cur = {'ex': None}
 
     def lock_factory():
@@ -339,6 +340,7 @@ def explore(make, traced_files, bound, check, max_exec=None, verify_every=50, op
             for alt in range(1, len(order)):
                 if children_only:
                     st.children.append(ex.choices[:i] + [alt])
+                    st.children_cost.append(cost)
                 else:
                     stack.append(ex.choices[:i] + [alt])
         if max_exec and st.executions >= max_exec:
